@@ -1103,10 +1103,54 @@ func (g *c03Gen) mappedMix() {
 	}
 }
 
+// directed: a peer leaves completely and is collected by gc while a protocol
+// (and sometimes a service) scope it used survives through another peer; then the
+// same peer comes back on that protocol / service.  Peers 4..6 are used by this
+// routine only, so that nothing else keeps their scopes alive.
+func (g *c03Gen) peerReturns() {
+	rd, r := g.rd, g.r
+	qa, qb := 4+rd.Intn(3), rd.Intn(4)
+	p, sv := rd.Intn(3), rd.Intn(2)
+	withSvc := rd.Chance(1, 2)
+	visit := func(q int, closeIt bool) {
+		j := g.nextStr
+		g.nextStr++
+		if r.do(c03Op{code: 3, i: j, q: q, inb: rd.Bool()}) != 0 {
+			return
+		}
+		if r.do(c03Op{code: 4, i: j, q: p}) == 0 {
+			g.strProto[j] = true
+			if withSvc && r.do(c03Op{code: 5, i: j, q: sv}) == 0 {
+				g.strSvc[j] = true
+			}
+		}
+		if rd.Chance(1, 3) {
+			g.reserve(c03Sid{10, j, 0}, int64(1+rd.Intn(500)))
+		}
+		if closeIt {
+			r.do(c03Op{code: 9, t: c03Sid{10, j, 0}})
+			g.doneH[c03Sid{10, j, 0}] = true
+		}
+	}
+	visit(qb, false) // keeps the protocol / service scope alive
+	visit(qa, true)
+	r.do(c03Op{code: 10})
+	visit(qa, rd.Chance(1, 2)) // the same peer again
+	if rd.Chance(1, 2) {
+		r.do(c03Op{code: 10})
+		visit(qa, true)
+	}
+	g.r.out.Cover("directed.peer_returns_after_gc")
+}
+
 func (g *c03Gen) step() {
 	rd, r := g.rd, g.r
 	if rd.Chance(1, 25) {
 		g.nestedSpans()
+		return
+	}
+	if rd.Chance(1, 30) {
+		g.peerReturns()
 		return
 	}
 	if rd.Chance(1, 40) {
@@ -1520,6 +1564,21 @@ func c03Corpus(t testing.TB, out *verifh.Out) {
 			{code: 9, t: c03Sid{9, 1, 0}},
 		})
 	}
+	// a peer is collected by gc while the protocol and service scopes it used survive
+	// through another peer; the same peer then returns on that protocol and service
+	run("peer-returns-after-gc", c03BaseCfg(), []c03Op{
+		{code: 3, i: 0, q: 1, inb: true}, {code: 4, i: 0, q: 0}, {code: 5, i: 0, q: 0},
+		{code: 3, i: 1, q: 0, inb: true}, {code: 4, i: 1, q: 0}, {code: 5, i: 1, q: 0},
+		{code: 9, t: c03Sid{10, 1, 0}},
+		{code: 10},
+		{code: 3, i: 2, q: 0, inb: false}, {code: 4, i: 2, q: 0}, {code: 5, i: 2, q: 0},
+		{code: 6, t: c03Sid{10, 2, 0}, sz: 77, prio: 255},
+		{code: 9, t: c03Sid{10, 2, 0}},
+		{code: 10},
+		{code: 3, i: 3, q: 0, inb: true}, {code: 4, i: 3, q: 0},
+		{code: 9, t: c03Sid{10, 3, 0}}, {code: 9, t: c03Sid{10, 0, 0}},
+		{code: 10},
+	})
 	// refusal at each edge of a stream with protocol and service attached
 	for edge := 0; edge < 6; edge++ {
 		c := c03BaseCfg()
